@@ -437,13 +437,13 @@ def run(ck):
                       "value aliases the stored one.  A case counts as non-trivial when it is distinct and contains a parse/load/set.")
     if not ck.quick():
         ck.leanchecker(PROP_MODULES + ["UsualProofs.C18." + m for m in
-                                       ("View", "Ref", "LineSpec", "Scan", "NumP", "ConfigP")])
+                                       ("View", "Ref", "LineSpec", "Scan", "NumP", "ConfigP", "LoadP")])
     ck.cov["partial"] = ["set_get_roundtrip_time_partial: the round trip of time values under the concrete binary64 "
                          "model (strtodC/fmtG) is kernel-evaluated on a finite list of values; the statement for all "
                          "values with <= 6 significant digits needs floating-point error analysis (full statement kept "
                          "in a comment next to it); with strtod/%g as parameters it is proved in general "
                          "(set_get_roundtrip_time)",
-                         "cf_set_filename: $HOME / getpwnam are parameters (Env); only the plain and `~/` cases are theorems"]
+                         "cf_set_filename: $HOME / getpwnam / getpwuid are parameters (Env) of set_filename and set_filename_user"]
     rng = vf.SplitMix(ck.seed)
     nontriv = lambda c: any(l.split()[0] in ("parse", "load", "set", "setself") for l in c)
     hist = {}
